@@ -16,8 +16,8 @@ e) what DEFINE persists, the next start can read back: the schema store's writer
 f) a conforming payload reaches validation: the rule that cuts the JSON payload out of a STORE command skips JSON string literals (the generated __parse_balanced_braces reaches __parse_json_string),
    so braces inside string values do not unbalance it.
 """
-FLOOR = 8
-REQUIRED = ["C06.a", "C06.b", "C06.c", "C06.d1", "C06.d2", "C06.d3", "C06.e", "C06.f"]
+FLOOR = 10
+REQUIRED = ["C06.a", "C06.b", "C06.c", "C06.d1", "C06.d2", "C06.d3", "C06.e", "C06.f", "C06.g", "C06.h"]
 
 
 def run(ctx):
@@ -343,3 +343,42 @@ def run(ctx):
             return [("string-escapes-ignored", "the string rule used by balanced_braces does not handle backslash escapes: \\\" inside a value ends the string early", None)]
         return []
     ctx.run("C06.f", "K4 REACH", "STORE grammar: balanced_braces", "braces inside JSON string values do not count", f_)
+
+    def g_(inst):
+        # the command text a front end parses is the text the client sent: no lossy re-encoding before the parser
+        bad, n = [], 0
+        for k in F.keys():
+            if k.startswith("bin:") or "_test" in k or "::tests::" in k or not norm_path(k).startswith("frontend::"):
+                continue
+            b = F.fn_exact(k)
+            for pc in b.find_calls(r"command::parser::command::parse_command$|parser::command::parse_command$|::parse_command$"):
+                n += 1
+                L = b.origins(pc.args[0])
+                inst.sites.append(sp(b, pc.bb) + " parse_command <- " + fmt_leaves(L)[:80])
+                back = wide_all(b, pc.args[0], depth=80)
+                lossy = [c2 for c2 in b.find_calls(r"from_utf8_lossy$") if c2.dest and c2.dest[0] in back]
+                if lossy or any(l[0] == "call" and norm_path(l[1]).endswith("from_utf8_lossy") for l in L):
+                    bad.append(("lossy-command-text:%s" % norm_path(k).split("::{closure")[0].split("::")[-1], "%s parses a command obtained with String::from_utf8_lossy: bytes that are not UTF-8 become U+FFFD and the altered payload / context id is stored with a 200" % norm_path(k).split("::{closure")[0], sp(b, pc.bb)))
+        if n < 4:
+            raise AnchorMissing("parse_command call sites in frontend:: (%d, 5 counted)" % n)
+        return bad
+    ctx.run("C06.g", "K7 PROV", "front ends -> parse_command", "the parsed command text is the client's bytes, not a lossy conversion", g_)
+
+    def h_(inst):
+        # the pre-parse brace guard of STORE must read strings the way the grammar does: a brace inside a string is no nesting
+        k = [x for x in F.find(r"command::parser::commands::store::raw_brace_depth_exceeds$")]
+        pp = F.fn("command::parser::commands::store::parse_peg")
+        guards = [c_ for c_ in pp.calls if not c_.cleanup and c_.callee and F.has(c_.callee) and re.search(r"brace|nesting|depth", c_.nname) and not c_.nname.endswith("nesting_error")]
+        inst.sites = [sp(pp, c_.bb) + " " + c_.nname.split("::")[-1] for c_ in guards]
+        bad = []
+        for c_ in guards:
+            g = F.fn_exact(c_.callee)
+            sw = [(i_, g.switch_info(i_)) for i_ in sorted(g.live_blocks()) if g.blocks[i_]["t"]["t"] == "switch"]
+            braces = [(i_, si) for i_, si in sw if si and si["kind"] == "int" and "123" in si["edges"]]
+            if not braces:
+                continue
+            quote_aware = any("34" in si["edges"] for _, si in braces) or any(si and si["kind"] == "bool" and si.get("def", {}).get("r") == "bin" and str(si["def"].get("b", {}).get("k", "")).startswith("34_") for _, si in sw)
+            if not quote_aware:
+                bad.append(("guard-counts-string-braces:%s" % c_.nname.split("::")[-1], "%s counts every '{' byte and never looks for '\"': 64 braces inside a string value are refused as nesting although the JSON depth is 1" % c_.nname.split("::")[-1], sp(pp, c_.bb)))
+        return bad
+    ctx.run("C06.h", "K6 TABLE", "STORE pre-parse guards (parse_peg)", "a brace-counting guard skips string literals", h_)
